@@ -87,6 +87,17 @@ UNSUPPORTED_SEEDS = [
     "constraints{ r1 is CCO } break bond(c1,h1) increase number of radical(c1) "
     "increase number of radical(h1)}",
 ]
+# nesting: the work must stay proportional to the text (a grammar whose
+# alternatives re-try the same nesting level doubles it per level)
+for _d in (4, 8, 12, 16):
+    UNSUPPORTED_SEEDS.append(
+        "rule n%d{ reactant r1{ C labeled c1 H labeled h1 single bond to c1} "
+        "constraints{ %sr1.size > x%s } break bond(c1,h1) increase number of "
+        "radical(c1) increase number of radical(h1)}" % (_d, '(' * _d, ')' * _d))
+    UNSUPPORTED_SEEDS.append(
+        "rule m%d{ reactant r1{ C labeled c1 H labeled h1 single bond to c1} "
+        "constraints{ %sr1.size > 2%s } break bond(c1,h1) increase number of "
+        "radical(c1) increase number of radical(h1)}" % (_d, '(' * _d, ')' * _d))
 
 TOKRE = re.compile(r"[A-Za-z_][A-Za-z0-9_]*|\d|>=|<=|=>|\|\||&&|\+\.|-\.|:\.|"
                    r"[^\sA-Za-z0-9_]")
